@@ -34,7 +34,8 @@ struct StaticSubject {
         KeyMeta meta;
         GenOpts o;
         o.eps = 4;
-        o.size_hint = std::min(size_hint, 70u);
+        o.size_hint = size_hint >= 100 ? 100u : std::min(size_hint, 70u);
+        o.ef_bimodal = size_hint >= 100; // (64-bit keys only) a destination with >= 10^5 segments: long select superblocks
         keys = gen_keys<K>(t, o, meta);
         // known findings of the classes themselves are excluded as in their own engines
         const K cap = std::numeric_limits<K>::max() - 16;
@@ -200,8 +201,12 @@ template<typename S>
 CaseResult run_copy(const RunCtx &ctx, TapeReader &t, unsigned size_hint, S subj) {
     using Obj = typename S::Obj;
     CaseResult res;
-    std::string desc;
+    std::string desc, desc2;
+    S subj2 = subj; // a second, independently generated value of the same class: assignments across lineages overwrite real content
     std::unique_ptr<Obj> first = subj.build(t, size_hint, desc, ctx.execute);
+    const bool big_other = t.chance(1, 4); // ... sometimes a much larger one (stale state of the assigned-to object must not survive)
+    std::unique_ptr<Obj> second = subj2.build(t, big_other ? 100 : size_hint, desc2, ctx.execute);
+    desc += "second value: " + desc2;
     size_t n_ops = 3 + t.below(14);
     std::vector<CopyOp> ops;
     // weights favour the interesting sequence: copy/move, destroy source, scribble, query
@@ -226,11 +231,16 @@ CaseResult run_copy(const RunCtx &ctx, TapeReader &t, unsigned size_hint, S subj
     slots.emplace_back();
     slots[0].obj = std::move(first);
     slots[0].expect = subj.digest(*slots[0].obj);
+    slots.emplace_back();
+    slots[1].obj = std::move(second);
+    slots[1].expect = subj.digest(*slots[1].obj); // both lineages are digested with the first value's query set
+    if (slots[1].expect != slots[0].expect) res.label("two_distinct_values");
     std::vector<std::unique_ptr<std::vector<unsigned char>>> junk;
     bool saw_copy_destroy_query = false;
     std::vector<bool> source_destroyed; // per slot: "is a copy/move whose source has been destroyed since"
     source_destroyed.push_back(false);
-    std::vector<long> source_of{-1};
+    source_destroyed.push_back(false);
+    std::vector<long> source_of{-1, -1};
 
     auto live = [&](size_t x) -> long { // pick a slot holding a valid (not moved-from) value
         std::vector<size_t> c;
@@ -382,7 +392,7 @@ static CaseResult run(const RunCtx &ctx, const Tape &tape, Tape &canon) {
 }
 
 static const char *rule(const std::string &) {
-    return "cases: one object of {PGMIndex, CompressedPGMIndex (EpsilonRecursive 0, 4, 256), BucketingPGMIndex, EliasFanoPGMIndex, MultidimensionalPGMIndex, "
+    return "cases: two independently generated objects (the second one large in 1/4 of the cases) of {PGMIndex, CompressedPGMIndex (EpsilonRecursive 0, 4, 256), BucketingPGMIndex, EliasFanoPGMIndex, MultidimensionalPGMIndex, "
            "DynamicPGMIndex (after a generated history)} built from generated data, then a generated script of 4..17 steps over {copy-construct, copy-assign "
            "(incl. self-assignment), move-construct, move-assign (each only if the class provides it), destroy any object, overwrite freed memory with a "
            "pattern, update a source (Dynamic), query all}. oracle: the digest of all answers (search over the derived query set; contains + box ranges; "
